@@ -24,40 +24,40 @@ CHECKS = {
    text="BFS to depth 2 (thorough 4) over 36 request actions from an initial tree in all 48 configurations (send directory explicit or by fallback), each with fresh sockets and with one reused client endpoint; every transition is judged by a reference policy function written from the statement.",
    note="Trusted: reference policy; state = file tree (server-internal state is guarded differentially by probing revisited states).", design="§4, §6 C06"),
  "C07": dict(engine="E1 simnet + E2 loopback", level="model_checking", technique="stateless deviation-bounded exploration of the real Worker (both roles) with termination monitors; silence, ERROR and k non-progress answers injected at every point; plus ERROR/silence histories against the real Server",
-   text="All answer sequences with <= D deviations (2; thorough 3, 4 for windowsize <= 2) over the G1 grid, plus all-timeout from every point, ERROR at every point (handshake included) and k = 0..9 non-progress answers of one kind followed by silence, both roles; monitors T1-T5. Through the real Server (both port modes): peer ERROR after k steps ends the transfer at once; silence is answered by a retransmission after the default 5 s and by giving up after six 1-second timeouts (wall clock).",
+   text="All answer sequences with <= D deviations (2; thorough 3, 4 for windowsize <= 2) over the G1 grid, plus all-timeout from every point, ERROR at every point (handshake included; every error number 0..7; also with a non-UTF-8 message) and k = 0..9 non-progress answers of one kind followed by silence, both roles; monitors T1-T5. Through the real Server (both port modes): peer ERROR after k steps ends the transfer at once; silence is answered by a retransmission after the default 5 s and by giving up after six 1-second timeouts (wall clock).",
    note="Trusted: SimSocket seam; bounded retry accepted up to 16 consecutive timeouts.", design="§6 C07"),
  "C08": dict(engine="E1 simnet + E2 loopback", level="model_checking", technique="stateless deviation-bounded exploration with a virtual clock: ACK alphabet x delays {0,T/2,T-1ns}, windowsize incl. 65534/65535, overflow-checked build in the thorough tier",
    text="All answer sequences with <= D deviations where every ACK kind (full, partial, duplicate, stale, future) arrives with delay 0, T/2 or T-1ns; monitors W1-W4 on bursts and virtual time; windowsize 1,2,3,4,8,65534,65535 (incl. a completely filled 65535-block window). Through the real Server: a duplicate ACK 0.7 s before a negotiated 6 s interval elapses triggers nothing (wall clock).",
    note="Trusted: virtual clock hook (the run fails as machinery error if the hook is bypassed).", design="§6 C08"),
  "C09": dict(engine="E2 loopback", level="model_checking", technique="exhaustive enumeration of option lists (ordered selections x boundary values x casing x unknown/duplicate options) against the real Server with a reference negotiator and transfer-shape oracle",
-   text="All ordered selections of the four options with boundary values (thorough: full cross product), x RRQ/WRQ x single/multi port x file sizes, each accepted request carried to its end with the acknowledged values; one wall-clock clause (retransmission interval) measured with asymmetric tolerance.",
+   text="All ordered selections of the four options with boundary values (thorough: full cross product), x RRQ/WRQ x single/multi port x file sizes, each accepted request carried to its end with the acknowledged values; wall-clock clauses (retransmission interval for 1 s and for 6 s, above the default) measured with asymmetric tolerance; sparse files of 2^32 bytes and more (tsize), a symbolic link, upper/mixed-case mode spellings.",
    note="Trusted: reference negotiator; the interval clause is a measurement, not an enumeration.", design="§6 C09"),
  "C12": dict(engine="E2 loopback", level="model_checking", technique="exhaustive enumeration of all interleavings of K client scripts' datagrams (one datagram at a time) plus an intruder datagram at every position, against the real Server",
-   text="All interleavings of 2 scripts (10 pairs) and 3 short scripts, in both port modes, with an intruder datagram of 8 kinds to 2 targets (single-port: also from another loopback address with the victim's port number) at every position; a request that blocks on a named pipe at every position of another download; per-client byte identity, source-port discipline, ERROR to the intruder.",
+   text="All interleavings of 2 scripts (10 pairs) and 3 short scripts, in both port modes, with an intruder datagram of 8 kinds to 2 targets (single-port: also from another loopback address with the victim's port number) at every position; a request that blocks on a named pipe at every position of another download; the listener on the dual-stack address with IPv4 clients; per-client byte identity, source-port discipline, ERROR to the intruder.",
    note="Assumes the driver's one-datagram-at-a-time regime; the server's internal thread schedule is the OS's (overlapped pairs in the thorough tier).", design="§6 C12"),
  "C13": dict(engine="E1 simnet + E2 loopback", level="fault_enumeration", technique="exhaustive enumeration of abort points x causes (ERROR, silence, RLIMIT_FSIZE write error) and of all interleavings of a stale and a fresh real Worker on one path",
    text="Every abort point of uploads of 1..5 blocks x cause x clean/keep x windowsize; all interleavings of two real Workers on one path; the same history through the real Server; single failing uploads through the real Server onto fresh and existing names.",
    note="The check-then-create window of two WRQs in no-overwrite mode is outside the enumerated schedules.", design="§6 C13"),
  "C14": dict(engine="E2 loopback + E1 simnet", level="exploration", technique="exhaustive run of a boundary-value configuration grid (in-process Client/Server, real binaries) plus exhaustive single-fault placement between two real Workers",
-   text="Boundary grid size x blksize x windowsize x timeout x port mode x direction with the in-process bundled client; real tftpc/tftpd binaries on IPv4/IPv6 with three path styles and three refusal kinds; two real Workers over the simulated network with every placement of <=1 (2) faults; the bundled client (in-process and tftpc) behind a UDP relay losing one datagram at each early position; >65535 blocks with the real binaries.",
+   text="Boundary grid size x blksize x windowsize x timeout x port mode x direction with the in-process bundled client; real tftpc/tftpd binaries on IPv4/IPv6 with three path styles and three refusal kinds; two real Workers over the simulated network with every placement of <=1 (2) faults; the bundled client (in-process and tftpc) behind a UDP relay losing one datagram at each early position; >65535 blocks with the real binaries; tftpd started with relative directory names; downloads without -rd; distinct-directory uploads and refusals.",
    note="Grid = boundary-value selection of a large space, hence 'exploration'.", design="§6 C14"),
  "C15": dict(engine="E1 simnet + E2 loopback", level="fault_enumeration", technique="exhaustive enumeration of fault placements in the block-number wrap neighbourhood of >65535-block transfers (real Worker + reference peer)",
    text="Transfers of 65535..65539 (and 131074) blocks, both roles, windowsize placing the wrap at the end/start/middle of a window, every placement of up to F (1, thorough 2) faults on datagrams carrying/acknowledging blocks 65530..65541; plus uploads and downloads of 65541 blocks through the real Server in both port modes.",
    note="Trusted: absolute block tracking in the monitors.", design="§6 C15"),
  "C16": dict(engine="E1 simnet + E2 loopback", level="model_checking", technique="stateless exploration of the real Worker with repeat = N+1 under the multiplicity monitor, wire counts against the real Server, exhaustive N = 0..300 through the config parser",
-   text="N in {0,1,2,3,254} x roles x windowsize x lengths with D <= 1 deviations, peers answering once or every copy; copies counted on the wire for N in 0..3 in both port modes; a peer that leaves after the first copy of the final ACK; a window of copies that outlasts the timeout (1 ms of virtual time per copy); N = 0..=300 through Config::new and 254/255/256 through the binary; tftpc against a duplicating tftpd.",
+   text="N in {0,1,2,3,254} x roles x windowsize x lengths with D <= 1 deviations, peers answering once or every copy; copies counted on the wire for N in 0..3 in both port modes, every kind of listener ERROR counted once (also on read-only and no-overwrite servers); a peer that leaves after the first copy of the final ACK; a window of copies that outlasts the timeout (1 ms of virtual time per copy); N = 0..=300 through Config::new and 254/255/256 through the binary; tftpc against a duplicating tftpd.",
    note="Wire-level surplus-copy detection uses a short wait; exact counting is done in E1.", design="§6 C16"),
  "C10": dict(engine="E3 seq", level="model_checking", technique="exhaustive bounded enumeration of datagrams through the real decoder (explicit enumeration, no sampling)",
-   text="Every byte string of <=5 (thorough <=6, <=8 after a valid opcode) tokens over a 19-token structural alphabet, all 65536 opcode prefixes x tails, and all single-site mutations of valid encodings are pushed through the real Packet::deserialize; mandatory rejections are judged by an independent RFC decoder, stability by re-encoding with the real encoder. Exhaustive within the alphabet/length bound.",
+   text="Every byte string of <=5 (thorough <=6, <=8 after a valid opcode) tokens over a 19-token structural alphabet, all 65536 opcode prefixes x tails, all single-site mutations of valid encodings, and 0..70/100/300 well-formed options followed by a malformed one are pushed through the real Packet::deserialize; mandatory rejections are judged by an independent RFC decoder, stability by re-encoding with the real encoder. Exhaustive within the alphabet/length bound.",
    note="Trusted: the independent decoder in harness/src/refcodec.rs and the choice of token alphabet; bytes outside the alphabet are represented by one letter/digit each.", design="§6 C10"),
  "C11": dict(engine="E3 seq", level="model_checking", technique="exhaustive enumeration of grammar-generated packet values incl. all 65536 block numbers / opcodes / error codes, against an independent RFC codec",
-   text="All packets generated by a small grammar (all u16 numbers exhaustively) are encoded by the real encoder and compared byte for byte with an independent RFC encoder, decoded back by the real decoder and by the independent one.",
+   text="All packets generated by a small grammar (all u16 numbers exhaustively; option lists of up to 1000 entries; every named opcode / error code against the RFC's number for that name) are encoded by the real encoder and compared byte for byte with an independent RFC encoder, decoded back by the real decoder and by the independent one.",
    note="Trusted: harness/src/refcodec.rs; string and option-value sets are representative, not all strings.", design="§6 C11"),
  "C17": dict(engine="E3 seq", level="model_checking", technique="exhaustive enumeration of argument vectors up to a length bound through the real parsers, against a reference parser plus model-free permutation comparison",
    text="Every argument vector of <=3 (thorough <=5, 6 on a sub-alphabet) flag units over ~35 units goes through the real Config::new / ClientConfig::new and is compared with a reference parser written from the statement; permutations of non-repeating vectors are compared with each other.",
    note="Trusted: the reference parser; -h/--help excluded (process::exit).", design="§6 C17"),
  "C18": dict(engine="E3 seq", level="model_checking", technique="exhaustive enumeration of operation sequences up to a depth on the real Window, against a VecDeque reference model",
-   text="All operation sequences of length 5 (thorough 7) over (size, chunk, file length) in {0..3}x{1..3}x{0..7} in source, sink and mixed regimes, plus window sizes 65534/65535, are applied to the real Window and every observer is compared with a reference queue after each operation; whole files of 8191..70000 bytes streamed through fill/remove and 1023..65535 pieces buffered before one empty().",
+   text="All operation sequences of length 5 (thorough 7) over (size, chunk, file length) in {0..3}x{1..3}x{0..7} in source, sink and mixed regimes, plus window sizes 65534/65535, are applied to the real Window and every observer is compared with a reference queue after each operation; whole files of 8191..200000 bytes (more than 65536 chunks) and one sparse file beyond 4 GiB streamed through fill/remove and 1023..65535 pieces buffered before one empty().",
    note="Trusted: the reference queue; regular files only.", design="§6 C18"),
 }
 
